@@ -961,7 +961,7 @@ func c11Suggest(p *Prog, r *Report) {
 				}
 				greater, _ := guardEdges(fn, func(cond ssa.Value) (bool, bool) {
 					bo, ok := cond.(*ssa.BinOp)
-					if !ok || (bo.Op != token.LSS && bo.Op != token.GTR) {
+					if !ok || (bo.Op != token.LSS && bo.Op != token.GTR && bo.Op != token.GEQ && bo.Op != token.LEQ) {
 						return false, false
 					}
 					if n, isC := constInt(bo.Y); !isC || n != 0 {
@@ -981,6 +981,13 @@ func c11Suggest(p *Prog, r *Report) {
 					if bo.Op == token.GTR && running(y) && sameCell(x, bl.val) {
 						return true, true
 					}
+					// the negated forms guard a skip: `base.Compare(v) >= 0 → continue`
+					if bo.Op == token.GEQ && running(x) && sameCell(y, bl.val) {
+						return true, false
+					}
+					if bo.Op == token.LEQ && running(y) && sameCell(x, bl.val) {
+						return true, false
+					}
 					return false, false
 				})
 				nrange++
@@ -994,7 +1001,7 @@ func c11Suggest(p *Prog, r *Report) {
 			// candidate not below base: commit only via the false edge of CompareVersions(_, cand, base) < 0
 			_, fails := guardEdges(fn, func(cond ssa.Value) (bool, bool) {
 				bo, ok := cond.(*ssa.BinOp)
-				if !ok || bo.Op != token.LSS {
+				if !ok || (bo.Op != token.LSS && bo.Op != token.GEQ) {
 					return false, false
 				}
 				if n, isC := constInt(bo.Y); !isC || n != 0 {
@@ -1005,7 +1012,8 @@ func c11Suggest(p *Prog, r *Report) {
 					return false, false
 				}
 				if sameCell(c.Call.Args[1], l.val) && c.Call.Args[2] == lc.from {
-					return true, true
+					// `cmp(v, current) >= 0` is the same test with the branches exchanged
+					return true, bo.Op == token.LSS
 				}
 				return false, false
 			})
